@@ -308,6 +308,11 @@ func (t *FnTrans) useSpecFun(sf *SpecFun) {
 	if t.declared[n] {
 		return
 	}
+	for _, ps := range append(append([]string{}, sf.PSorts...), sf.Ret) {
+		if strings.HasPrefix(ps, "U_") {
+			t.usort(ps[2:])
+		}
+	}
 	if sf.Body == nil {
 		t.declareFun(n, sf.PSorts, sf.Ret)
 		return
@@ -428,8 +433,7 @@ func (t *FnTrans) staticAddrComps(addr ssa.Value, l *loopInfo) {
 			t.staticAddrComps(a.X, l)
 		}
 	case *ssa.Global:
-		T := a.Type().(*types.Pointer).Elem()
-		t.w(l, "G."+a.Pkg.Pkg.Path()+"."+a.Name(), t.sortOf(T))
+		t.wCell(l, a.Type().(*types.Pointer).Elem())
 	default:
 		pt, ok := t.resolve(addr.Type()).Underlying().(*types.Pointer)
 		if !ok {
